@@ -869,6 +869,54 @@ func (in *inliner) expandBlock(tg *target, ctx *fctx, pos token.Pos) (pre []ast.
 			return nil, nil, false
 		}
 	}
+	// a parameterless, resultless function literal passed for a parameter the helper only ever calls as a
+	// statement (`revert()`): the call is the literal's body, run in the caller's scope
+	litBody := map[string]*ast.BlockStmt{}
+	for i, a := range tg.args {
+		lit, isLit := a.(*ast.FuncLit)
+		v := sig.Params().At(i)
+		if !isLit || rename[v] == "" || lit.Type.Params.NumFields() != 0 || lit.Type.Results.NumFields() != 0 {
+			continue
+		}
+		plain := true
+		free := map[string]bool{}
+		ast.Inspect(lit.Body, func(n ast.Node) bool {
+			switch x := n.(type) {
+			case *ast.ReturnStmt, *ast.DeferStmt, *ast.FuncLit, *ast.LabeledStmt, *ast.BranchStmt:
+				plain = false
+			case *ast.Ident:
+				free[x.Name] = true
+			}
+			return plain
+		})
+		// every use of the parameter is `p()` as a statement, and no name the helper declares is used by the literal
+		uses, stmtCalls := 0, 0
+		ast.Inspect(c.decl.Body, func(n ast.Node) bool {
+			switch x := n.(type) {
+			case *ast.Ident:
+				r, _ := in.root(x).(*ast.Ident)
+				if r == nil {
+					r = x
+				}
+				if c.pkg.TypesInfo.Uses[r] == v {
+					uses++
+				}
+				if o := c.pkg.TypesInfo.Defs[r]; o != nil && o != v && free[x.Name] {
+					plain = false
+				}
+			case *ast.ExprStmt:
+				if call, ok := x.X.(*ast.CallExpr); ok && len(call.Args) == 0 {
+					if id, ok := call.Fun.(*ast.Ident); ok && in.use(c.pkg.TypesInfo, id) == v {
+						stmtCalls++
+					}
+				}
+			}
+			return true
+		})
+		if plain && uses > 0 && uses == stmtCalls {
+			litBody[rename[v]] = lit.Body
+		}
+	}
 	var resNames []string
 	for i := 0; i < sig.Results().Len(); i++ {
 		v := sig.Results().At(i)
@@ -913,6 +961,14 @@ func (in *inliner) expandBlock(tg *target, ctx *fctx, pos token.Pos) (pre []ast.
 		switch x := cur.Node().(type) {
 		case *ast.FuncLit:
 			return false
+		case *ast.ExprStmt:
+			if call, ok := x.X.(*ast.CallExpr); ok && len(call.Args) == 0 {
+				if id, ok := call.Fun.(*ast.Ident); ok && litBody[id.Name] != nil {
+					blk := in.clone(litBody[id.Name]).(*ast.BlockStmt)
+					cur.Replace(blk)
+					return false
+				}
+			}
 		case *ast.ReturnStmt:
 			usedGoto = true
 			var list []ast.Stmt
@@ -1638,9 +1694,11 @@ func (P *Prog) newFunctions() map[*types.Func]bool {
 	if len(base.Inventory) == 0 {
 		return nil
 	}
+	// (a method whose receiver changed between T and *T is the same function)
+	norm := func(n string) string { return strings.Replace(n, "(*", "(", 1) }
 	inv := map[string]bool{}
 	for _, n := range base.Inventory {
-		inv[n] = true
+		inv[norm(n)] = true
 	}
 	renamed := map[*types.Func]bool{}
 	for _, parts := range base.FuncKeys {
@@ -1677,7 +1735,7 @@ func (P *Prog) newFunctions() map[*types.Func]bool {
 				if o == nil || o.Name() == "init" || o.Name() == "_" {
 					continue
 				}
-				if !inv[o.FullName()] && !renamed[o] {
+				if !inv[norm(o.FullName())] && !renamed[o] {
 					out[o] = true
 				}
 			}
